@@ -21,6 +21,9 @@ type c12Task struct {
 	Delay   int  `json:"delay"` // yields before NewChannel
 	Pause   int  `json:"pause"` // yields between rounds
 	NoClose bool `json:"no_close,omitempty"`
+	// Fill > 0: the task's requests are padded to exactly Fill packet bodies (the message then ends with an
+	// empty end-of-message packet, the one packet whose header is not derived from a data packet).
+	Fill int `json:"fill,omitempty"`
 	// Trailing: after the last response the peer sends this many more packages on the task's channel, which the
 	// client does not wait for: they race the channel's Close (at most the queue size, or Close would meet the
 	// listed full-queue deadlock of C13).
@@ -71,6 +74,9 @@ func (c12) Gen(r *Rand, idx int, tier string) interface{} {
 			t.Rounds = r.Intn(2)
 		}
 		t.NoClose = r.Pct(15)
+		if r.Pct(25) {
+			t.Fill = 1 + r.Intn(2)
+		}
 		p.Tasks = append(p.Tasks, t)
 	}
 	p.QueueSize = Pick(r, []int{1, 2, 3, 5, 100})
@@ -371,7 +377,12 @@ func (c12) Run(plan interface{}, schedSeed uint64, replay []simrt.Choice, lenien
 					return
 				}
 				for rd := 0; rd < tp.Rounds; rd++ {
-					if err := ch.SendPackage(ctx, &tds.LanguagePackage{Cmd: fmt.Sprintf("t%dr%dn%d", ti+1, rd, tp.Pkgs)}); err != nil {
+					cmd := fmt.Sprintf("t%dr%dn%d", ti+1, rd, tp.Pkgs)
+					if tp.Fill > 0 {
+						// token, 4-byte length and status precede the text
+						cmd += strings.Repeat(" ", tp.Fill*(conn.PacketSize()-8)-6-len(cmd))
+					}
+					if err := ch.SendPackage(ctx, &tds.LanguagePackage{Cmd: cmd}); err != nil {
 						tr.sendErrs = append(tr.sendErrs, err.Error())
 						break
 					}
